@@ -2,7 +2,11 @@ package dh
 
 import (
 	"net"
+	"os"
+	"path/filepath"
+	"sort"
 	"strconv"
+	"strings"
 
 	"pvharness/lib"
 )
@@ -308,5 +312,28 @@ func bucket(d int) string {
 		return "lt30"
 	default:
 		return "ge30"
+	}
+}
+
+// Corpus runs the recorded witness histories ($VERIF_CORPUS/*.txt, lines "hist ...") first.
+func Corpus(r *lib.Run) {
+	dir := os.Getenv("VERIF_CORPUS")
+	if dir == "" {
+		return
+	}
+	files, _ := filepath.Glob(filepath.Join(dir, "*.txt"))
+	sort.Strings(files)
+	for _, fn := range files {
+		b, err := os.ReadFile(fn)
+		if err != nil {
+			continue
+		}
+		for _, l := range strings.Split(string(b), "\n") {
+			f := strings.Fields(l)
+			if len(f) > 11 && f[0] == "hist" {
+				r.Do("hist", f[1:]...)
+				r.Stat("class.corpus", 1)
+			}
+		}
 	}
 }
